@@ -146,6 +146,24 @@ def check_triple(case, H):
 
 
 # ------------------------------------------------------------------ (c) operations
+def term_dec_shared(j, cache):
+    """Decode with maximal physical sharing: structurally identical JSON sub-terms become ONE holpy object
+    (also when they sit at different binder depths)."""
+    from kernel.term import Comb, Abs
+    import json as _json
+    key = _json.dumps(j)
+    if key in cache:
+        return cache[key]
+    if j[0] == 'app':
+        t = Comb(term_dec_shared(j[1], cache), term_dec_shared(j[2], cache))
+    elif j[0] == 'abs':
+        t = Abs(j[1], codec.type_dec(j[2]), term_dec_shared(j[3], cache))
+    else:
+        t = codec.term_dec(j)
+    cache[key] = t
+    return t
+
+
 def _names_in(j, acc_free, acc_bind):
     tag = j[0]
     if tag in ('v', 'sv'):
@@ -203,13 +221,18 @@ def _same_denotation(r1, r2, rng):
     return (True, None) if checked else None
 
 
-def check_op(case, H):
+def check_op(case, H, share=False):
     from kernel.term import Inst, Lambda, TermException, TypeCheckException, Term
     from kernel.type import TyInst
     op = case.get('op')
     rng = random.Random(harness.digest(case))
     tj = case['t']
-    ht = codec.term_dec(tj)
+    _cache = {}
+    _plain_dec = codec.term_dec
+
+    def _dec(j):
+        return term_dec_shared(j, _cache) if share else _plain_dec(j)
+    ht = _dec(tj)
     rt = ref.from_jterm(tj)
     before = ref.canon(ref.from_term(ht))
     klass = ['op:' + op]
@@ -290,7 +313,7 @@ def check_op(case, H):
                 return
         elif op in ('subst_bound', 'beta_conv'):
             aj = case['a']
-            ha = codec.term_dec(aj)
+            ha = _dec(aj)
             ra = ref.from_jterm(aj)
             if tj[0] != 'abs':
                 raise CaseInvalid('subst_bound needs an abstraction')
@@ -341,6 +364,8 @@ def check_op(case, H):
     rres = ref.from_term(result)
     if ref.canon(rres) != ref.canon(expected):
         feat = 'loose' if 'op:loose-argument' in klass else ('capture' if capture else 'plain')
+        if share:
+            feat += '+shared-subterms'
         H.violation('op:%s:differs-from-reference:%s' % (op, feat), case,
                     'got %s expected %s' % (ref.show(rres), ref.show(expected)))
         H.case(case, True, klass)
@@ -375,7 +400,8 @@ def check_op(case, H):
                 d = _same_denotation(redex, rres, rng)
                 if d is not None and d[0] is False:
                     H.violation('op:%s:denotation-changed' % op, case, repr(d[1]))
-    H.case(case, capture, klass + (['op:capture-opportunity'] if capture else []))
+    if not share:
+        H.case(case, capture, klass + (['op:capture-opportunity'] if capture else []) + (['op:dup-subterms'] if case.get('dup') else []))
 
 
 # ------------------------------------------------------------------ (b) histories
@@ -524,7 +550,9 @@ def run_case(case, H):
             elif k == 'triple':
                 check_triple(case, H)
             elif k == 'op':
-                check_op(case, H)
+                check_op(case, H, share=False)
+                if case.get('op') in ('subst_bound', 'beta_conv', 'beta_norm', 'incr_boundvars', 'subst_type', 'lambda'):
+                    check_op(case, H, share=True)
             elif k == 'hist':
                 check_hist(case, H)
             else:
@@ -682,6 +710,30 @@ def op_strategy(opts, opts_loose):
             else:
                 x = [draw(st.sampled_from(['v', 'sv'])), draw(st.sampled_from(opts.names)), draw(gen.types(opts))]
             return {'kind': 'op', 'op': op, 't': t, 'x': x}
+        if op in ('subst_bound', 'beta_conv', 'incr_boundvars', 'beta_norm') and draw(st.integers(0, 3)) == 0:
+            # one open sub-term s occurring at two binder depths (all binders of one type, so it stays well-typed)
+            Ab = gen.A
+            R = draw(st.sampled_from([gen.A, BOOL]))
+            sT = draw(st.sampled_from([gen.A, BOOL, fun(gen.A, gen.A)]))
+            sub = draw(gen.terms(opts_loose, sT, (Ab, Ab, Ab), draw(st.integers(1, 2))))
+            inner = sub
+            for nm in draw(st.sampled_from([['u'], ['u', 'v']])):
+                inner = ['abs', nm, Ab, inner]
+            innerT = sT
+            for _ in range(len(inner_names(inner, sub))):
+                innerT = fun(Ab, innerT)
+            hT = fun(sT, innerT, R)
+            targ = ['app', ['app', ['v', 'h', hT], sub], inner]        # open: refers to enclosing binders
+            if op == 'incr_boundvars':
+                return {'kind': 'op', 'op': op, 't': targ, 'inc': draw(st.integers(1, 2)), 'dup': True}
+            if op == 'beta_norm':
+                # (%x. %w. k x w) targ  under two binders, closed by lambdas
+                kT = fun(R, Ab, R)
+                red = ['app', ['abs', 'x', R, ['abs', 'w', Ab, ['app', ['app', ['v', 'k', kT], ['b', 1]], ['b', 0]]]], targ]
+                return {'kind': 'op', 'op': op, 't': ['abs', 'a', Ab, ['abs', 'c', Ab, ['abs', 'e', Ab, red]]], 'dup': True}
+            kT = fun(R, Ab, R)
+            body = ['abs', 'w', Ab, ['app', ['app', ['v', 'k', kT], ['b', 1]], ['b', 0]]]
+            return {'kind': 'op', 'op': op, 't': ['abs', 'x', R, body], 'a': targ, 'dup': True}
         if op in ('subst_bound', 'beta_conv'):
             aT = draw(st.sampled_from(gen.small_types(opts)))
             body = draw(gen.terms(opts_loose if draw(st.booleans()) else opts, T, (aT,), fuel))
@@ -695,6 +747,15 @@ def op_strategy(opts, opts_loose):
         t = draw(gen.terms(opts_loose, T, (), fuel))
         return {'kind': 'op', 'op': 'incr_boundvars', 't': t, 'inc': draw(st.integers(0, 3))}
     return ops()
+
+
+def inner_names(inner, sub):
+    names = []
+    t = inner
+    while t is not sub and t[0] == 'abs':
+        names.append(t[1])
+        t = t[3]
+    return names
 
 
 def hist_strategy(opts):
